@@ -239,6 +239,7 @@ def builtin (f : String) (args : List Val) : Option Val :=
   | "len", [v] => v.elems?.map (fun xs => .int xs.length)
   | "abs", [v] => v.asInt?.map (fun i => .int i.natAbs)
   | "int", [v] => v.asInt?.map .int
+  | "float", [v] => v.asInt?.map .int          -- numbers of the fragment are exact; `float(n)` of an integer is that number
   | "int_truediv", [a, b] => match a.asInt?, b.asInt? with
       | some a, some b => if b == 0 then some (.err "ZeroDivisionError") else some (.int (Int.tdiv a b))
       | _, _ => some (.err "int(a / b)")
